@@ -8,8 +8,7 @@ EXTENDS ContactApi, Json, IOUtils
 
 TraceLog == ndJsonDeserialize(IOEnv.VERIF_TRACE)
 Strict == IOEnv.VERIF_STRICT = "1"
-\* the contacts of the trace (cfg: Contacts <- TraceContacts)
-TraceContacts == UNION {DOMAIN TraceLog[i].st.cs : i \in {j \in DOMAIN TraceLog : TraceLog[j].ev = "init"}}
+\* Contacts (cfg override by the check) = a superset of the contacts of every block of the trace
 
 VARIABLE l
 tvars == <<vars, l>>
